@@ -1,7 +1,7 @@
 import SqlModel.Options
 import SqlModel.Control
 import SqlModel.GroupingParse
-import SqlModel.Generated.ControlIR
+import SqlModel.Generated.ControlRun
 import SqlModel.Filters.Stage2
 import SqlModel.Filters.Reindent
 import SqlModel.Filters.Aligned
